@@ -307,6 +307,7 @@ def run(ctx):
                  fingerprint=['zero-length'])
     ctx.extra['pool_runs'] = pool_runs
     glue_checks.full_stack_suite(ctx, ctx.budget(60, 600), batch=True)
+    glue_checks.lazy_suite(ctx, ctx.budget(80, 800), batch=True)
     ctx.sample({'batch_sizes': 'sentences 2..7', 'variants': ['one call', 'permuted', 'subset', 'repeated', 'chunked']})
     ctx.extra['skipped_unsupported'] = common.compare_with_model(ctx, cases)
     common.conclude(ctx)
